@@ -105,6 +105,21 @@ func c04Codec(t string, others []string) (clause, detail string) {
 			return "codec-match-different", fmt.Sprintf("tag %q MatchETag(%q)=%v,%v", t, o, ok, err)
 		}
 	}
+	// a value that starts and ends with a quote but has a bare quote inside is not one quoted string
+	if strings.Contains(t, `"`) && !strings.Contains(t, `\`) {
+		bad := webdav.ConditionalMatch(`"` + t + `"`)
+		if _, err := bad.ETag(); err == nil {
+			return "codec-malformed-accepted", fmt.Sprintf("ETag() of %q returns no error", string(bad))
+		}
+		for _, o := range append([]string{t}, others...) {
+			if o == "" {
+				continue
+			}
+			if ok, err := bad.MatchETag(o); ok || err == nil {
+				return "codec-malformed-accepted", fmt.Sprintf("%q.MatchETag(%q)=%v,%v", string(bad), o, ok, err)
+			}
+		}
+	}
 	w := webdav.ConditionalMatch("*")
 	if !w.IsSet() || !w.IsWildcard() {
 		return "codec-wildcard", "*"
@@ -195,6 +210,15 @@ func c04DoubleTag(tag string) (clause, detail string) {
 	if got, err := webdav.ConditionalMatch(ann).ETag(); err != nil || got != tag {
 		return "double-announced-tag-not-decodable", fmt.Sprintf("announced %q decodes to %q, %v; backend tag %q", ann, got, err, tag)
 	}
+	// a PUT announces the tag of what it stored in the same form as GET does afterwards
+	fs.NextETag = &tag
+	if tag != "" {
+		pnew := harness.Serve(h, harness.Req{Method: "PUT", Path: "/g", Body: "fresh"})
+		gnew := harness.Serve(h, harness.Req{Method: "GET", Path: "/g"})
+		if pnew.Status/100 != 2 || gnew.Status != 200 || pnew.Header.Get("ETag") != gnew.Header.Get("ETag") || gnew.Header.Get("ETag") != ann {
+			return "double-put-get", fmt.Sprintf("PUT %d announces %q, GET %d announces %q, the same tag on /f was announced as %q", pnew.Status, pnew.Header.Get("ETag"), gnew.Status, gnew.Header.Get("ETag"), ann)
+		}
+	}
 	// send it back
 	fs.Reset()
 	put := harness.Serve(h, harness.Req{Method: "PUT", Path: "/f", Body: "new", Header: map[string]string{"If-Match": ann}})
@@ -277,6 +301,22 @@ func init() {
 			s := v.S
 			e, clause, detail := c01Judge(v)
 			s.Outcome(fmt.Sprintf("%s/%d", v.Req.Method, v.Resp.Status))
+			if clause == "" && len(v.Req.Header) > 0 {
+				// for an EXISTING resource (file or collection) the statement gives a failed precondition its
+				// own status (412, or 400 for a value that is not a quoted string) whatever else is wrong
+				// with the request (a PUT on a collection); for an unmapped target the other refusal
+				// (404, 409) is as good
+				p := cleanP(v.Req.Path)
+				pe := &davExpect{Codes: map[int]bool{}, Next: v.State}
+				tag := ""
+				if pr, ok := v.Probe[p]; ok && pr.Status == 200 {
+					tag = strings.Trim(pr.ETag, `"`)
+				}
+				condRefusals(pe, v.Req.Header, kindOf(v.State, p) != "unmapped", tag)
+				if pe.Refused && !pe.Codes[v.Resp.Status] && kindOf(v.State, p) != "unmapped" {
+					clause, detail = "precondition-status", fmt.Sprintf("got=%d-want=%s", v.Resp.Status, pe.want())
+				}
+			}
 			if len(v.Req.Header) > 0 {
 				s.Nontrivial(v.State.Canon() + "|" + v.Req.String())
 				s.Clause("truth table: carried out iff both preconditions hold; else 412/400 and tree unchanged")
